@@ -18,7 +18,8 @@ use fuel_core::fuel_core_graphql_api::{
         old::{OldFuelBlockConsensus, OldFuelBlocks, OldTransactions},
         relayed_transactions::RelayedTransactionStatuses,
     },
-    verif_hooks::{balances_update, BalanceUpdate},
+    storage::coins::CoinsToSpendIndexKey,
+    verif_hooks::{balances_update, coins_to_spend_update, BalanceUpdate, CoinsToSpendUpdate},
 };
 use fuel_core_storage::{Error as StorageError, Mappable, Result as StorageResult, StorageInspect, StorageMutate};
 use fuel_core_types::{
@@ -43,6 +44,41 @@ pub struct MockTx {
     pub stored_coin_key: CoinBalancesKey,
     pub stored_msg_key: Address,
     pub other: u32,
+    /// coins-to-spend index: one slot
+    pub idx_present: Option<CoinsToSpendIndexKey>,
+    pub idx_inserted: Option<CoinsToSpendIndexKey>,
+    pub idx_removed: Option<CoinsToSpendIndexKey>,
+    pub idx_inserts: u32,
+    pub idx_removes: u32,
+}
+
+impl StorageInspect<CoinsToSpendIndex> for MockTx {
+    type Error = StorageError;
+    fn get(&self, key: &CoinsToSpendIndexKey) -> StorageResult<Option<Cow<'_, ()>>> {
+        Ok(if self.idx_present.as_ref() == Some(key) { Some(Cow::Owned(())) } else { None })
+    }
+    fn contains_key(&self, key: &CoinsToSpendIndexKey) -> StorageResult<bool> {
+        Ok(self.idx_present.as_ref() == Some(key))
+    }
+}
+impl StorageMutate<CoinsToSpendIndex> for MockTx {
+    fn replace(&mut self, key: &CoinsToSpendIndexKey, _v: &()) -> StorageResult<Option<()>> {
+        self.idx_inserts += 1;
+        self.idx_inserted = Some(key.clone());
+        let old = if self.idx_present.as_ref() == Some(key) { Some(()) } else { None };
+        self.idx_present = Some(key.clone());
+        Ok(old)
+    }
+    fn take(&mut self, key: &CoinsToSpendIndexKey) -> StorageResult<Option<()>> {
+        self.idx_removes += 1;
+        self.idx_removed = Some(key.clone());
+        if self.idx_present.as_ref() == Some(key) {
+            self.idx_present = None;
+            Ok(Some(()))
+        } else {
+            Ok(None)
+        }
+    }
 }
 
 impl StorageInspect<CoinBalances> for MockTx {
@@ -114,7 +150,7 @@ macro_rules! untouched_table {
     )*};
 }
 untouched_table!(OwnedMessageIds, OwnedCoins, FuelBlockIdsToHeights, ContractsInfo, OldFuelBlocks, OldFuelBlockConsensus,
-    OldTransactions, SpentMessages, RelayedTransactionStatuses, CoinsToSpendIndex, AssetsInfo);
+    OldTransactions, SpentMessages, RelayedTransactionStatuses, AssetsInfo);
 
 impl OffChainDatabaseTransaction for MockTx {
     fn record_tx_id_owner(&mut self, _o: &Address, _h: BlockHeight, _i: u16, _t: &Bytes32) -> StorageResult<()> {
@@ -165,6 +201,7 @@ pub fn coin_step<S: Src>(s: &mut S) {
         coin_key: None, coin_val: if has_stored { Some(stored) } else { None }, coin_reads: 0, coin_writes: 0,
         msg_key: None, msg_val: None, msg_reads: 0, msg_writes: 0,
         stored_coin_key: stored_key, stored_msg_key: addr(0), other: 0,
+        idx_present: None, idx_inserted: None, idx_removed: None, idx_inserts: 0, idx_removes: 0,
     };
     let coin = Coin { utxo_id: Default::default(), owner, amount, asset_id, tx_pointer: Default::default() };
     let event = if created { Event::CoinCreated(coin) } else { Event::CoinConsumed(coin) };
@@ -206,6 +243,7 @@ pub fn message_step<S: Src>(s: &mut S) {
         coin_key: None, coin_val: None, coin_reads: 0, coin_writes: 0,
         msg_key: None, msg_val: if has_stored { Some(stored.clone()) } else { None }, msg_reads: 0, msg_writes: 0,
         stored_coin_key: CoinBalancesKey::new(&addr(0), &asset(0)), stored_msg_key: stored_owner, other: 0,
+        idx_present: None, idx_inserted: None, idx_removed: None, idx_inserts: 0, idx_removes: 0,
     };
     let mut data = Vec::with_capacity(1);
     if retryable {
@@ -244,6 +282,66 @@ pub fn message_step<S: Src>(s: &mut S) {
     std::mem::forget(event);
 }
 
+/// One event against the coins-to-spend index: the resource is listed exactly
+/// while it is unspent, under a key that carries its owner, asset, amount,
+/// identifier and (for messages) the retryable flag.
+pub fn to_spend_step<S: Src>(s: &mut S) {
+    let owner = addr(s.u8());
+    let asset_id = asset(s.u8());
+    let base_asset = asset(s.u8());
+    let amount = s.u64();
+    let id_byte = s.u8();
+    let is_coin = s.bool();
+    let add = s.bool();
+    let retryable = s.bool();
+    let already_present = s.bool();
+    let enabled = s.bool();
+    let mut tx_id = [0u8; 32];
+    tx_id[5] = id_byte;
+    let mut nonce = [0u8; 32];
+    nonce[7] = id_byte;
+    let (event, expect_key) = if is_coin {
+        let utxo_id = fuel_core_types::fuel_tx::UtxoId::new(fuel_core_types::fuel_tx::TxId::new(tx_id), 1);
+        let coin = Coin { utxo_id, owner, amount, asset_id, tx_pointer: Default::default() };
+        let key = CoinsToSpendIndexKey::Coin { owner, asset_id, amount, utxo_id };
+        (if add { Event::CoinCreated(coin) } else { Event::CoinConsumed(coin) }, key)
+    } else {
+        let mut data = Vec::with_capacity(1);
+        if retryable {
+            data.push(1u8);
+        }
+        let n = fuel_core_types::fuel_types::Nonce::new(nonce);
+        let message = Message::V1(MessageV1 { sender: addr(9), recipient: owner, nonce: n, amount, data, da_height: Default::default() });
+        let key = CoinsToSpendIndexKey::Message { retryable_flag: if retryable { 0 } else { 1 }, owner, asset_id: base_asset, amount, nonce: n };
+        (if add { Event::MessageImported(message) } else { Event::MessageConsumed(message) }, key)
+    };
+    let mut tx = MockTx {
+        coin_key: None, coin_val: None, coin_reads: 0, coin_writes: 0,
+        msg_key: None, msg_val: None, msg_reads: 0, msg_writes: 0,
+        stored_coin_key: CoinBalancesKey::new(&addr(0), &asset(0)), stored_msg_key: addr(0), other: 0,
+        idx_present: if already_present { Some(expect_key.clone()) } else { None },
+        idx_inserted: None, idx_removed: None, idx_inserts: 0, idx_removes: 0,
+    };
+    let r = coins_to_spend_update(&event, &mut tx, enabled, &base_asset);
+    if !enabled {
+        vassert!(r == CoinsToSpendUpdate::Ok && tx.idx_inserts == 0 && tx.idx_removes == 0, "C36 disabled indexation touches nothing");
+    } else if add {
+        vassert!(tx.idx_inserts == 1 && tx.idx_removes == 0, "C36 a created coin / imported message is listed in the coins-to-spend index exactly once");
+        vassert!(tx.idx_inserted.as_ref() == Some(&expect_key), "C36 the index entry carries the resource's owner, asset, amount and identifier");
+        vassert!((r == CoinsToSpendUpdate::AlreadyIndexed) == already_present, "C36 indexing a resource twice is reported");
+        vassert!(r == CoinsToSpendUpdate::Ok || already_present, "C36 a new unspent resource is always listed, whatever its amount");
+    } else {
+        vassert!(tx.idx_removes == 1 && tx.idx_inserts == 0, "C36 a spent resource is removed from the coins-to-spend index exactly once");
+        vassert!(tx.idx_removed.as_ref() == Some(&expect_key), "C36 the entry removed is the spent resource's own");
+        vassert!((r == CoinsToSpendUpdate::NotFound) == !already_present, "C36 spending a resource that is not listed is reported");
+        vassert!(tx.idx_present.is_none(), "C36 a spent resource is no longer listed");
+    }
+    vassert!(tx.coin_writes == 0 && tx.msg_writes == 0 && tx.other == 0, "C36 the coins-to-spend update touches only its own index");
+    vreach!();
+    vreach!(r == CoinsToSpendUpdate::Ok && add && amount == 0, "C36 listing a zero-amount resource reachable");
+    std::mem::forget(event);
+}
+
 #[cfg(kani)]
 mod proofs {
     use super::*;
@@ -262,4 +360,5 @@ mod proofs {
     }
     proof!(c36_coin_step, coin_step);
     proof!(c36_message_step, message_step);
+    proof!(c36_to_spend_step, to_spend_step);
 }
